@@ -65,28 +65,30 @@ type plan struct {
 }
 
 type partial struct {
-	Property    string                     `json:"property"`
-	Unit        string                     `json:"unit"`
-	Shard       int                        `json:"shard"`
-	Rule        string                     `json:"rule"`
-	Evaluations int64                      `json:"evaluations"`
-	Cases       int64                      `json:"cases"`
-	NonTrivial  int64                      `json:"nontrivial_cases"`
-	Distinct    int64                      `json:"distinct_nontrivial_local"`
-	ByConstr    int64                      `json:"distinct_by_construction"`
-	Saturated   bool                       `json:"hashset_saturated"`
-	Skipped     int64                      `json:"skipped_excluded"`
-	Labels      map[string]int             `json:"labels"`
-	Samples     []json.RawMessage          `json:"samples"`
-	Exhaustive  bool                       `json:"exhaustive"`
-	Requested   int                        `json:"requested"`
-	Completed   bool                       `json:"completed"`
-	Violations  int                        `json:"violations"`
-	Known       map[string]knownHit        `json:"known"`
-	Assumes     []string                   `json:"assumes"`
-	WallS       float64                    `json:"wall_s"`
-	HashFile    string                     `json:"hash_file"`
-	Extra       map[string]json.RawMessage `json:"extra"`
+	Property          string                     `json:"property"`
+	Unit              string                     `json:"unit"`
+	Shard             int                        `json:"shard"`
+	Rule              string                     `json:"rule"`
+	Evaluations       int64                      `json:"evaluations"`
+	Cases             int64                      `json:"cases"`
+	NonTrivial        int64                      `json:"nontrivial_cases"`
+	Distinct          int64                      `json:"distinct_nontrivial_local"`
+	ByConstr          int64                      `json:"distinct_by_construction"`
+	Saturated         bool                       `json:"hashset_saturated"`
+	Skipped           int64                      `json:"skipped_excluded"`
+	Labels            map[string]int             `json:"labels"`
+	Samples           []json.RawMessage          `json:"samples"`
+	Exhaustive        bool                       `json:"exhaustive"`
+	Requested         int                        `json:"requested"`
+	Completed         bool                       `json:"completed"`
+	Violations        int                        `json:"violations"`
+	Known             map[string]knownHit        `json:"known"`
+	Assumes           []string                   `json:"assumes"`
+	WallS             float64                    `json:"wall_s"`
+	HashFile          string                     `json:"hash_file"`
+	Extra             map[string]json.RawMessage `json:"extra"`
+	Inconclusive      int64                      `json:"inconclusive_cases"`
+	InconclusiveFirst string                     `json:"inconclusive_first"`
 }
 
 type knownHit struct {
@@ -585,6 +587,12 @@ func collect(prop string, pl plan, work, mode string, seed int64, jobs []*job, w
 		}
 	}
 
+	for _, p := range parts {
+		if p.Inconclusive > 0 {
+			inconclusive = append(inconclusive, fmt.Sprintf("%s shard %d: %d case(s) could not be decided, first: %s", p.Unit, p.Shard, p.Inconclusive, p.InconclusiveFirst))
+		}
+	}
+
 	// known findings
 	known := readKnown()
 	knownLines := []string{}
@@ -758,12 +766,12 @@ func buildEvidence(prop string, pl plan, mode string, seed int64, parts []*parti
 		rules = append(rules, "NOTE: a per-process hash set reached its cap; distinct_nontrivial is a lower bound")
 	}
 	cov := map[string]any{
-		"evaluations":         evals,
-		"distinct_nontrivial": distinct,
-		"rule":                strings.Join(rules, " || "),
-		"samples":             samples,
-		"exhaustive":          exhaustiveAll,
-		"units":               units,
+		"evaluations":              evals,
+		"distinct_nontrivial":      distinct,
+		"rule":                     strings.Join(rules, " || "),
+		"samples":                  samples,
+		"exhaustive":               exhaustiveAll,
+		"units":                    units,
 		"excluded_by_construction": skipped,
 	}
 	if len(knownLines) > 0 {
